@@ -71,13 +71,26 @@ SymInvs(ev) ==
        IN << I("Homogeneous", IsFin(ev.y) /\ IsFin(base.y) /\ Close(ev.y, want, Tol9, FloorOf(ev.fn, ev.a))) >>
   ELSE << >>
 
+\* Regime tag of a Phi evaluation (part of the violation signature): "/strained" when the small-u expansions l0v / lv0 of
+\* phi_pos are used (smallest ratio u < 2.2e-4 <= v) although their expansion parameter u / (1 - v)^2 exceeds 1e-2
+\* (identifies the known finding K20; every other regime has no tag)
+Min3(x, y, z) == Min2(x, Min2(y, z))
+Mid3(x, y, z) == Max2(Min2(x, y), Min2(Max2(x, y), z))
+RegimeTag(ev) ==
+  IF ev.fn \in {"Phi", "Phi_over_lambda_2"} /\ \A i \in 1..3 : IsFin(ev.a[i]) /\ ev.a[i].s > 0
+  THEN LET mn == Min3(ev.a[1], ev.a[2], ev.a[3])  md == Mid3(ev.a[1], ev.a[2], ev.a[3])  mx == Max3(ev.a[1], ev.a[2], ev.a[3])
+       IN IF /\ Lt(Mul(OfInt(100000), mn), Mul(OfInt(22), mx)) /\ Le(Mul(OfInt(22), mx), Mul(OfInt(100000), md))
+             /\ Lt(Sq(Sub(mx, md)), Mul(OfInt(100), Mul(mn, mx)))
+          THEN "/strained" ELSE ""
+  ELSE ""
+
 Init == l = 1 /\ base = None /\ viol = << >> /\ nchecked = 0
 
 TEval ==
   /\ l <= NLines /\ TraceLog[l].e = "Eval"
   /\ LET ev == TraceLog[l]
          invs == << I("KnownFunction", ev.known) >> \o EvalInvs(ev) \o SymInvs(ev)
-     IN /\ viol' = viol \o Failed(invs, l, ev.fn \o "/" \o ev.cls) /\ nchecked' = nchecked + Len(invs)
+     IN /\ viol' = viol \o Failed(invs, l, ev.fn \o "/" \o ev.cls \o RegimeTag(ev)) /\ nchecked' = nchecked + Len(invs)
         /\ base' = IF ev.role = "base" THEN ev ELSE base
   /\ l' = l + 1
 
